@@ -104,12 +104,15 @@ def _collect_fuzz(core, jobs, found, errors):
             found.extend(rec["violations"])
         except Exception as e:
             errors.append("[fuzz:%s] no statistics: %s\n%s" % (name, e, log[-1500:]))
-        done = re.findall(r"#(\d+)\s+DONE\s+cov: (\d+) ft: (\d+) corp: (\d+)", log)
+        done = re.findall(r"#(\d+)\s+DONE\s+(?:cov: (\d+) ft: (\d+) )?corp: (\d+)", log)
         if p.returncode != 0 or not done:
             errors.append("[fuzz:%s] atheris child exit %s\n%s" % (name, p.returncode, log[-1500:]))
         info[name] = {"stats": st}
         if done:
-            info[name].update(executions=int(done[-1][0]), cov=int(done[-1][1]), ft=int(done[-1][2]), corpus_units=int(done[-1][3]))
+            info[name].update(executions=int(done[-1][0]), cov=int(done[-1][1] or 0), ft=int(done[-1][2] or 0),
+                              corpus_units=int(done[-1][3]))
+            if st.evaluations == 0:
+                info[name]["note"] = "no byte string decoded to a valid case: this campaign explored nothing"
         shutil.rmtree(d, ignore_errors=True)
     return info
 
